@@ -13,6 +13,8 @@ import (
 // MapKeys returns the keys of m in an order chosen by the explorer: the
 // canonical (sorted) order by default, any permutation when the execution's
 // permutation oracle asks for one. Outside an execution it returns sorted keys.
+//
+//go:norace
 func MapKeys[K comparable, V any](m map[K]V) []K {
 	keys := make([]K, 0, len(m))
 	for k := range m {
@@ -105,7 +107,7 @@ func Choose(n int, label string) int {
 	obj := &object{id: -1000 - t.id, name: label}
 	o := &op{arms: make([]arm, n)}
 	for i := range o.arms {
-		o.arms[i] = arm{kind: aSimple, obj: obj, label: fmt.Sprintf("choose%d/%d", i, n)}
+		o.arms[i] = arm{kind: aSimple, obj: obj, label: "choose" + strconv.Itoa(i) + "/" + strconv.Itoa(n)}
 	}
 	return t.do(o).arm
 }
